@@ -61,7 +61,9 @@ if sw:
     out += ["", "**Regression sweep of the final machinery** (`tools/logs/final_sweep.txt`, every seeded regression against the quick tier of its own",
             "property's check, all checks as committed): %d of %d caught; not caught by the own check: %s - exactly the regressions" % (
                 sum(1 for v in sw.values() if v == 1), len(sw), ", ".join(notc)),
-            "explained below (caught by a neighbouring check, obsolete after a repair, or outside what the property claims).", ""]
+            "explained below (caught by a neighbouring check, obsolete after a repair, or outside what the property claims).",
+            "After the sixth round the sweep was repeated for the eight properties whose checks had changed again (`tools/logs/sweep_after_round6.txt`,",
+            "96 regressions, m1-m12 of C02 C06 C08 C09 C12 C14 C15 C16): 90 caught, the other six are among the explained ones.", ""]
 out += ["", "%d of the %d were caught by the checks as they were when the regression arrived. Every miss pointed at a shape the generator did" % (first_caught, n),
         "not reach or an observation the oracle did not make; each was closed by widening the generator or the oracle (never by raising",
         "case counts), after which all are caught - with ten exceptions that are explained in their `meta.json`:", "",
